@@ -165,6 +165,23 @@ def predict(cfg, rng, q=None, collect=None):
         bad('min', 'r_singularity is not the minimum over the grid')
     if np.max(np.abs(q.inv_r_singularity_vs_varphi * q.r_singularity_vs_varphi - 1)) > 1e-12:
         bad('inv', 'inv_r_singularity_vs_varphi is not the reciprocal')
+    # the minimum must be found wherever it sits on the grid: move the origin so that it lands on the LAST and on the FIRST grid point
+    if isinstance(cfg, dict) and 'preset' not in cfg and not getattr(predict, '_nested', False):
+        from oracle_sym import shifted_cfg
+        jmin = int(np.argmin(q.r_singularity_vs_varphi))
+        for k in sorted(set([(jmin + 1) % q.nphi, jmin])):
+            if k == 0:
+                continue
+            try:
+                q2, m2 = build(shifted_cfg(cfg, q, k))
+            except Exception:
+                continue
+            if any('Newton solve did not get close' in m for m in m2):
+                continue
+            n += 1
+            if q2.r_singularity != np.min(q2.r_singularity_vs_varphi):
+                bad('min', 'r_singularity (%.9g) is not the minimum over the grid (%.9g at index %d of %d) after moving the toroidal origin by %d points'
+                    % (q2.r_singularity, np.min(q2.r_singularity_vs_varphi), int(np.argmin(q2.r_singularity_vs_varphi)), q2.nphi, k))
     if collect is not None:
         for j in range(0, q.nphi, max(1, q.nphi // 8)):
             roots = np.polynomial.polynomial.polyroots(coef[j, :])
